@@ -12,6 +12,7 @@ import (
 	"github.com/lugu/qiloop/type/basic"
 	"github.com/lugu/qiloop/type/object"
 	"github.com/lugu/qiloop/type/value"
+	"github.com/lugu/qiloop/vhook"
 )
 
 // ErrWrongObjectID is returned when a method argument is given the
@@ -36,15 +37,18 @@ func (s *stubObject) UpdateProperty(id uint32, sig string, data []byte) error {
 		return fmt.Errorf("missing property (%d), %#v", id,
 			objImpl.meta)
 	}
+	vhook.Gate("prop.update.validate", "name", prop.Name, "data", data)
 	err := objImpl.onPropertyChange(prop.Name, data)
 	if err != nil {
 		return err
 	}
 	newValue := value.Opaque(sig, data)
+	vhook.Gate("prop.update.save", "name", prop.Name, "data", data)
 	err = objImpl.saveProperty(prop.Name, newValue)
 	if err != nil {
 		return err
 	}
+	vhook.Gate("prop.update.notify", "name", prop.Name, "data", data)
 	return s.signal.UpdateProperty(id, sig, data)
 }
 
@@ -183,10 +187,12 @@ func (o *objectImpl) SetProperty(name value.Value, newValue value.Value) error {
 		return fmt.Errorf("invalid signature: %s", err)
 	}
 	data := buf.Bytes()
+	vhook.Gate("prop.set.validate", "name", nameStr, "data", data)
 	err = o.onPropertyChange(nameStr, data)
 	if err != nil {
 		return err
 	}
+	vhook.Gate("prop.set.save", "name", nameStr, "data", data)
 	err = o.saveProperty(nameStr, newValue)
 	if err != nil {
 		return err
@@ -195,6 +201,7 @@ func (o *objectImpl) SetProperty(name value.Value, newValue value.Value) error {
 	if err != nil {
 		return fmt.Errorf("cannot set property: %s", err)
 	}
+	vhook.Gate("prop.set.notify", "name", nameStr, "data", data)
 	return o.signalHandler.UpdateProperty(id, sig, data)
 }
 
